@@ -232,6 +232,12 @@ def check_proofs(ctx, pid=None, extra_targets=()):
     ctx.coverage["axioms_used"] = sorted({a for v in seen.values() for a in v})
     if problems:
         return False, "; ".join(problems)
+    if not ctx.quick and os.environ.get("VERIF_SKIP_COQCHK") != "1":
+        # independent re-check of the compiled cone (thorough tier only; a minute or more)
+        okc, outc = coqchk(ctx, pid)
+        ctx.coverage["coqchk"] = {"ok": okc, "tail": outc[-600:]}
+        if not okc:
+            return False, "coqchk rejected the compiled development: " + outc[-800:]
     return True, "%d theorems, all closed / allowlisted" % len(thms)
 
 
